@@ -89,7 +89,8 @@ def _backtick_args(s):
 
 
 class Expander:
-    def __init__(self, repo=None):
+    def __init__(self, repo=None, vacuity=False):
+        self.vacuity = vacuity
         self.repo = repo or REPO
         self.lines = []
         self.items = []
@@ -362,6 +363,11 @@ class Expander:
             else:
                 raise TemplateError("%s: unknown sub-directive %s" % (it.id, kind))
 
+        if self.vacuity and it.is_fn and it.mode == "full" and not imported and sig_only_contract:
+            # vacuity pass: `assert(false)` at the entry of every function under
+            # contract must be REJECTED (a contradictory `requires` would make it pass)
+            inserts.append((body_open + 1, 0, "\n        proof { assert(false); } // vx-vacuity-probe", "proof"))
+            it.vacuity_probe = True
         ret_named = False
         if it.is_fn and arrow is not None and (sig_only_contract or it.mode == "sig"):
             rty = text[rs:re_].strip()
